@@ -235,12 +235,12 @@ fn determine_target(
 
     let mut host_header: Option<String> = None;
     for header in headers {
-        if let Some(rest) = header.strip_prefix("Host:") {
-            host_header = Some(rest.trim().to_string());
-            break;
-        } else if let Some(rest) = header.strip_prefix("host:") {
-            host_header = Some(rest.trim().to_string());
-            break;
+        // Header field names are case-insensitive (RFC 7230 3.2)
+        if let Some((name, value)) = header.split_once(':') {
+            if name.eq_ignore_ascii_case("host") {
+                host_header = Some(value.trim().to_string());
+                break;
+            }
         }
     }
 
